@@ -995,12 +995,14 @@ package psatoken
 //@   ensures[binding] ret == nil && evInv(e) && bound(e) ==> e.Claims == nil || prov(e.Claims) == bytesVal(e.message.Payload) || bytesVal(e.message.Payload) == cborEnc(e.Claims, signedAt(e))
 //@   modifies nothing
 
-// checkPublicKey DEFINES which keys count as malformed (the ones the crypto libraries panic on); its own
-// safety (type switch, field reads, len) is proved, the definition is audited by bounded:decode-no-panic,
-// which verifies tokens of three algorithm families against eleven such keys.
+// checkPublicKey is PROVED to refuse exactly the keys of specKeyMalformed (/verif/spec/common.spec: the key
+// values the crypto libraries panic on, written from the F12 probes), besides its own safety (type switch,
+// field reads, len). What stays assumed is only that the library-side predicate keyMalformed IS that spec
+// function; audited by bounded:decode-no-panic (tokens of three algorithm families against eleven such keys).
 //@ func checkPublicKey
 //@   property C05 C02 C17 C18
-//@   assumes[def-malformed] (ret != nil) == keyMalformed(pk) :: definition: malformed = what this function refuses; audited by bounded:decode-no-panic
+//@   ensures[malformed] (ret != nil) == specKeyMalformed(pk)
+//@   assumes[def-malformed] keyMalformed(pk) == specKeyMalformed(pk) :: definition of the library-side predicate (the keys the crypto libraries panic on) by the spec function written from the F12 probes; audited by bounded:decode-no-panic
 //@   modifies nothing
 
 //@ func knownAlgorithm
